@@ -37,7 +37,13 @@ META = dict(
                "values stay - not among the situations C08 lists); injected errors while no run is active; UOD commands other than 'write v to r for n iterations' (overlap lists, "
                "init/finalize effects, failing exec functions are model M2); a user UOD command requested while no "
                "run is active that is still executing after the next Start (tracking raises; flagged `bad-op scope`, "
-               "not generated). Recorded finding outside the model (findings.d/C08.json, reproduced on the real engine "
+               "not generated). The exemption 'unless the user explicitly commands that output during the pause' is proved in "
+               "the lenient form 'a user-sourced command wrote it during the pause' (C08_partial); read strictly (a "
+               "user request ACCEPTED during the pause, C08_full) it is false of the code: a user command started "
+               "before the Pause keeps running and holds its output at an unsafe value throughout the pause "
+               "(C08_counterexample; recorded finding unsafe-output-while-paused:user-command-from-before-the-pause, "
+               "reproduced on the real engine every run; the oracle uses the strict reading). "
+               "Recorded finding outside the model (findings.d/C08.json, reproduced on the real engine "
                "every run, not repaired): an output tag under 'Simulate' keeps its simulated value on the hardware "
                "while paused. Trusted: Lean kernel, harness, model (see C06).",
     technique="Lean 4 proof (refinement of the extended command loop to the guarded action system of M1 + write-log "
@@ -46,6 +52,7 @@ META = dict(
 )
 MODULE = "OPM.Properties.C08"
 REQUIRED = ["OPM.C08.safe_when_no_run", "OPM.C08.writes_safe", "OPM.C08.safe_after_paused_tick",
+            "OPM.C08.C08_partial", "OPM.C08.C08_counterexample",
             "OPM.C08.asIs_no_write_at_engine_start", "OPM.C08.asIs_method_command_writes_while_paused",
             "OPM.C08.asIs_error_pause_keeps_outputs"]
 
@@ -78,8 +85,9 @@ def oracle(case: dict, recs: list[dict]) -> list[Failure]:
     any_restart = False         # a Restart was requested at some point of this case
     ended_by_stop = True        # how the last run ended (a Restart leaves the outputs as they are for one tick)
     error_seen = False          # an error was injected while no run was active (outside the property)
-    touched: set[int] = set()   # registers a user-sourced command may have written during the current pause
-    recent_user: set[int] = set()   # registers of user UOD requests accepted since the previous tick
+    touched: set[int] = set()   # registers for which a user request was accepted during the current pause
+    running_user: set[int] = set()  # registers a user-sourced command from before the pause may still be writing
+    recent_user: set[int] = set()   # registers of user UOD requests accepted (while not paused) since the last tick
     for i, r in enumerate(recs):
         op = r["op"]
         prev = recs[i - 1] if i else None
@@ -90,18 +98,21 @@ def oracle(case: dict, recs: list[dict]) -> list[Failure]:
             if op[1] == "Restart":
                 any_restart = True
             if op[1] in UCMDS:
-                recent_user.add(int(op[1][1]))
+                if r["started"] and r["paused"]:
+                    touched.add(int(op[1][1]))       # the property's exemption: commanded during the pause
+                else:
+                    recent_user.add(int(op[1][1]))
         if op[0] == "tick":
             if any(x.startswith("m.restart") for x in r.get("items", [])):
                 any_restart = True
             if prev is not None and prev["started"] and not r["started"]:
                 # Stop writes the safe process image in its last tick; the first half of a Restart writes nothing
                 ended_by_stop = (not any_restart) or len(r.get("writes", [])) > 0
-            touched |= recent_user
+            running_user |= recent_user
             recent_user = set()
             for name, is_user in list(r["uex"]) + (list(prev["uex"]) if prev is not None else []):
                 if is_user:
-                    touched.add(int(name[1]))
+                    running_user.add(int(name[1]))
         # clause 2 and the paused clause, per write_batch
         for vals, started, paused in r.get("writes", []):
             if not started:
@@ -112,6 +123,8 @@ def oracle(case: dict, recs: list[dict]) -> list[Failure]:
                 if bad:
                     if all(r["simulated"][j] for j in bad):
                         key = "unsafe-output-while-paused-simulated-tag"
+                    elif all(j in running_user for j in bad):
+                        key = "unsafe-output-while-paused:user-command-from-before-the-pause"
                     elif r["method_error"]:
                         key = "unsafe-output-while-error-paused"
                     else:
@@ -132,6 +145,7 @@ def oracle(case: dict, recs: list[dict]) -> list[Failure]:
                 fail("unsafe-after-stop", i, f"hardware image {hw}")
         if op[0] == "tick" and not (r["started"] and r["paused"]):
             touched = set()
+            running_user = set()
     first: dict[str, Failure] = {}
     for f in out:
         first.setdefault(f.key, f)
